@@ -410,6 +410,166 @@ def d22():
     return after != fresh, f"listing of /pygopherd after a '/pygopherd//' request: {after[:40]!r} (fresh: {fresh[:40]!r})"
 
 
+def d24():
+    """two Type=X blocks for the same file (.Links and .names): the second remove() raises ValueError"""
+    def run(d):
+        os.mkdir(os.path.join(d, "dir"))
+        for n in ("a.txt", "b.txt", "c.txt"):
+            open(os.path.join(d, "dir", n), "w").write("x")
+        open(os.path.join(d, "dir", ".Links"), "w").write("Type=X\nPath=./b.txt\n")
+        open(os.path.join(d, "dir", ".names"), "w").write("Type=X\nPath=./b.txt\n")
+        cfg = make_config(root=d, conf="conf/pygopherd.conf")
+        cfg.set("handlers.dir.DirHandler", "cachetime", "0")
+        out, esc, log = request(b"/dir\r\n", cfg)
+        return b"a.txt" not in out or b"c.txt" not in out or b"b.txt" in out, f"reply={out[:100]!r}"
+
+    return with_tree(run)
+
+
+def d25():
+    """a merge block without Numb= resets the number a .cap file gave the entry"""
+    def run(d):
+        os.makedirs(os.path.join(d, "dir", ".cap"))
+        for n in ("a.txt", "b.txt"):
+            open(os.path.join(d, "dir", n), "w").write("x")
+        open(os.path.join(d, "dir", ".cap", "b.txt"), "w").write("Numb=1\nName=Bee\n")
+        open(os.path.join(d, "dir", ".names"), "w").write("Path=./b.txt\nAbstract=about b\n")
+        cfg = make_config(root=d, conf="conf/pygopherd.conf")
+        cfg.set("handlers.dir.DirHandler", "cachetime", "0")
+        out, esc, log = request(b"/dir\r\n", cfg)
+        lines = [l for l in out.split(b"\r\n") if l[:1] in (b"0", b"1")]
+        return not (lines and b"Bee" in lines[0]), f"first entry={lines[:1]!r}"
+
+    return with_tree(run)
+
+
+def _with_alarm(fn, seconds=3):
+    import signal
+
+    class Hang(BaseException):
+        pass
+
+    def onalarm(sig, frm):
+        raise Hang()
+
+    old = signal.signal(signal.SIGALRM, onalarm)
+    signal.alarm(seconds)
+    try:
+        return fn()
+    except Hang:
+        return True, f"request did not complete within {seconds}s (blocked opening a FIFO)"
+    finally:
+        signal.alarm(0)
+        signal.signal(signal.SIGALRM, old)
+
+
+def d26():
+    """a FIFO whose name starts with a dot is opened as a link file: the listing blocks forever"""
+    def run(d):
+        os.mkdir(os.path.join(d, "dir"))
+        open(os.path.join(d, "dir", "a.txt"), "w").write("x")
+        os.mkfifo(os.path.join(d, "dir", ".fifo"))
+        cfg = make_config(root=d, conf="conf/pygopherd.conf")
+        cfg.set("handlers.dir.DirHandler", "cachetime", "0")
+
+        def go():
+            out, esc, log = request(b"/dir\r\n", cfg)
+            return b"a.txt" not in out, f"reply={out[:80]!r}"
+        return _with_alarm(go)
+
+    return with_tree(run)
+
+
+def d27():
+    """a FIFO named like a sidecar (x.txt.abstract) is opened while building x.txt's entry: the listing blocks"""
+    def run(d):
+        os.mkdir(os.path.join(d, "dir"))
+        open(os.path.join(d, "dir", "a.txt"), "w").write("x")
+        open(os.path.join(d, "dir", "x.txt"), "w").write("x")
+        os.mkfifo(os.path.join(d, "dir", "x.txt.abstract"))
+        cfg = make_config(root=d, conf="conf/pygopherd.conf")
+        cfg.set("handlers.dir.DirHandler", "cachetime", "0")
+
+        def go():
+            out, esc, log = request(b"/dir\r\n", cfg)
+            return b"a.txt" not in out, f"reply={out[:80]!r}"
+        return _with_alarm(go)
+
+    return with_tree(run)
+
+
+def d28():
+    """Port=abc in a link file: int() raises ValueError and the directory request is left unanswered"""
+    def run(d):
+        os.mkdir(os.path.join(d, "dir"))
+        open(os.path.join(d, "dir", "a.txt"), "w").write("x")
+        open(os.path.join(d, "dir", ".names"), "w").write("Path=./a.txt\nPort=abc\n")
+        cfg = make_config(root=d, conf="conf/pygopherd.conf")
+        cfg.set("handlers.dir.DirHandler", "cachetime", "0")
+        out, esc, log = request(b"/dir\r\n", cfg)
+        return b"a.txt" not in out, f"reply={out[:80]!r}"
+
+    return with_tree(run)
+
+
+def d29():
+    """a damaged ZIP archive (ZIP handler enabled): BadZipFile escapes and the directory holding it gets no listing"""
+    def run(d):
+        import zipfile as zf
+
+        os.mkdir(os.path.join(d, "dir"))
+        open(os.path.join(d, "dir", "a.txt"), "w").write("x")
+        zp = os.path.join(d, "dir", "bad.zip")
+        with zf.ZipFile(zp, "w") as z:
+            z.writestr("m.txt", "hello")
+        raw = open(zp, "rb").read()
+        open(zp, "wb").write(raw.replace(b"PK\x01\x02", b"XXXX", 1))
+        assert zf.is_zipfile(zp)
+        cfg = make_config(root=d, conf="conf/pygopherd.conf")
+        cfg.set("handlers.dir.DirHandler", "cachetime", "0")
+        cfg.set("handlers.ZIP.ZIPHandler", "enabled", "true")
+        hl = cfg.get("handlers.HandlerMultiplexer", "handlers")
+        if "ZIP.ZIPHandler" not in hl.replace("#", ""):
+            pass
+        cfg.set("handlers.HandlerMultiplexer", "handlers", hl.replace("[", "[ZIP.ZIPHandler, ", 1))
+        out, esc, log = request(b"/dir\r\n", cfg)
+        out2, esc2, log2 = request(b"/dir/bad.zip\r\n", cfg)
+        return b"a.txt" not in out or not out2, f"listing={out[:60]!r} direct={out2[:60]!r}"
+
+    return with_tree(run)
+
+
+def d30():
+    """a link file with a bare `Type=` line: line[5] raises IndexError, the directory gets no response"""
+    def run(d):
+        os.mkdir(os.path.join(d, "dir"))
+        open(os.path.join(d, "dir", "a.txt"), "w").write("x")
+        open(os.path.join(d, "dir", ".names"), "w").write("Path=./a.txt\nType=\n")
+        cfg = make_config(root=d, conf="conf/pygopherd.conf")
+        cfg.set("handlers.dir.DirHandler", "cachetime", "0")
+        out, esc, log = request(b"/dir\r\n", cfg)
+        return b"a.txt" not in out, f"reply={out[:80]!r}"
+
+    return with_tree(run)
+
+
+def d31():
+    """gophermap lines `i<TAB>`, `<TAB>x` and a non-numeric port crash the gophermap parser"""
+    def run(d):
+        bad = []
+        for i, body in enumerate(("iHello\t\nI\t\n", "\tfoo\n1ok\t/x\n", "1Name\t/sel\thost\tabc\n")):
+            dd = os.path.join(d, f"m{i}")
+            os.mkdir(dd)
+            open(os.path.join(dd, "gophermap"), "w").write("iTop\n" + body)
+            cfg = make_config(root=d, conf="conf/pygopherd.conf")
+            out, esc, log = request(f"/m{i}\r\n".encode(), cfg)
+            if b"Top" not in out:
+                bad.append((body, out[:40]))
+        return bool(bad), f"unanswered: {bad!r}"
+
+    return with_tree(run)
+
+
 ALL = {k: v for k, v in list(globals().items()) if k.startswith("d") and k[1:2].isdigit() and callable(v)}
 ALL.pop("d8", None)
 
